@@ -409,6 +409,28 @@ structure Stage (P I : Bytes) (maxrange : Nat) : Prop where
   prepend : P.length < maxrange
   first : NoEarlierCandidate (P ++ I) 0 maxrange P.length
 
+/-- the part of the stage hypothesis that only concerns the image -/
+structure ImageOK (I : Bytes) (maxrange : Nat) : Prop where
+  dos : dosHeaderSize ≤ I.length
+  lfanew_pos : 0 < Img.lfanew I
+  lfanew_lt : Img.lfanew I < (maxrange : Int)
+  fileHeader : Img.optOff I ≤ I.length
+  machine : Img.machine I = (machineAmd64 : Int) ∨ Img.machine I = (machineI386 : Int)
+
+theorem Stage.image {P I : Bytes} {maxrange : Nat} (h : Stage P I maxrange) : ImageOK I maxrange :=
+  ⟨h.dos, h.lfanew_pos, h.lfanew_lt, h.fileHeader, h.machine⟩
+
+/-- `J ++ P ++ I` searched with `start_offset = |J|`: `J` are the bytes in front of the start offset (never inspected by the
+scan), `P` the bytes between the start offset and the image, `|P| < maxrange`, and no offset `|J| + o` with `o < |P|` passes
+the e_lfanew + Machine test. `Stage P I m` is `StageAt [] P I m`. -/
+structure StageAt (J P I : Bytes) (maxrange : Nat) : Prop where
+  image : ImageOK I maxrange
+  prepend : P.length < maxrange
+  first : NoEarlierCandidate (J ++ P ++ I) J.length maxrange P.length
+
+theorem Stage.at {P I : Bytes} {maxrange : Nat} (h : Stage P I maxrange) : StageAt [] P I maxrange :=
+  ⟨h.image, h.prepend, h.first⟩
+
 theorem machineAt_image (I : Bytes) (maxrange : Nat) (hd : dosHeaderSize ≤ I.length)
     (h1 : 0 < Img.lfanew I) (h2 : Img.lfanew I < (maxrange : Int)) (hf : Img.optOff I ≤ I.length) :
     machineAt I 0 maxrange = some (Img.machine I) := by
@@ -556,6 +578,159 @@ theorem leNat_nonneg_field (buf : Bytes) (fld : Field) (h : fld.signed = false) 
   unfold fieldVal
   simp [h]
 
+/-! ### the scan on `Q ++ I` (`Q` = everything in front of the image): result AND file position left behind -/
+
+/-- structure read at image offset `x`, complete or short -/
+theorem readStruct_image (Q I : Bytes) (x n : Nat) (k : FileKind) :
+    readStruct ⟨Q ++ I, Q.length + x, k⟩ n
+      = (sliceOpt I x n, ⟨Q ++ I, Q.length + (x + (slice I x n).length), k⟩) := by
+  rw [readStruct_eq, sliceOpt_prepend, slice_prepend, Nat.add_assoc]
+
+theorem image_classifyMz {I : Bytes} {maxrange : Nat} (h : ImageOK I maxrange) :
+    classifyMz (Img.machine I) = some () := by
+  unfold classifyMz; rw [if_pos h.machine]
+
+theorem image_classifyArch {I : Bytes} {maxrange : Nat} (h : ImageOK I maxrange) :
+    classifyArch (Img.machine I) = some (Img.arch I) := by
+  unfold classifyArch Img.arch Img.is64
+  rcases h.machine with hm | hm
+  · simp [hm]
+  · have : ¬ ((machineI386 : Int) = (machineAmd64 : Int)) := by decide
+    simp [hm, this]
+
+theorem machineAt_at (Q I : Bytes) {maxrange : Nat} (h : ImageOK I maxrange) :
+    machineAt (Q ++ I) Q.length maxrange = some (Img.machine I) := by
+  have := machineAt_prepend Q I 0 maxrange
+  simp only [Nat.add_zero] at this
+  rw [this]
+  exact machineAt_image I maxrange h.dos h.lfanew_pos h.lfanew_lt h.fileHeader
+
+/-- the loop body at the image: it accepts and leaves the position at the end of the `IMAGE_FILE_HEADER` -/
+theorem probe_image (Q I : Bytes) {maxrange : Nat} (h : ImageOK I maxrange) (p : Nat) (k : FileKind) :
+    probe ⟨Q ++ I, p, k⟩ Q.length maxrange = (some (Img.machine I), ⟨Q ++ I, Q.length + Img.optOff I, k⟩) := by
+  have hd := h.dos
+  have hf := h.fileHeader
+  have hpos := h.lfanew_pos
+  unfold probe
+  simp only [seekNat_mk]
+  have r1 := readStruct_stage Q I 0 dosHeaderSize k (by omega)
+  simp only [Nat.add_zero, Nat.zero_add] at r1
+  rw [r1]
+  simp only
+  have he : fieldVal (slice I 0 dosHeaderSize) dosLfanew = Img.lfanew I := by
+    rw [fieldVal_slice _ _ _ _ (by decide)]; rfl
+  rw [he, if_pos ⟨h.lfanew_pos, h.lfanew_lt⟩]
+  have hoff : Q.length + 4 + (Img.lfanew I).toNat = Q.length + (Img.nt I + 4) := by unfold Img.nt; omega
+  simp only [seekNat_mk]
+  rw [hoff, readStruct_stage Q I (Img.nt I + 4) fileHeaderSize k (by unfold Img.optOff at hf; omega)]
+  simp only
+  rw [fieldVal_slice _ _ _ _ (by decide)]
+  rfl
+
+/-- the loop body starts with an absolute seek: it does not depend on the position it finds -/
+theorem probe_pos_indep (d : Bytes) (p q : Nat) (k : FileKind) (base maxrange : Nat) :
+    probe ⟨d, p, k⟩ base maxrange = probe ⟨d, q, k⟩ base maxrange := rfl
+
+/-- at a hit the loop returns at once: the file is the one the accepting iteration leaves behind -/
+theorem scanLoop_hit_file (classify : Int → Option α) (start maxrange : Nat) (offs : List Nat) (f : PyFile) (b : Nat) (a : α)
+    (h : firstHit classify f.data start maxrange offs = some (b, a)) :
+    (scanLoop classify start maxrange offs f).2 = (probe ⟨f.data, 0, f.kind⟩ b maxrange).2 := by
+  induction offs generalizing f with
+  | nil => simp [firstHit] at h
+  | cons off rest ih =>
+    obtain ⟨d, p, k⟩ := f
+    obtain ⟨h1, h2, h3⟩ := probe_spec ⟨d, p, k⟩ (start + off) maxrange
+    unfold firstHit at h
+    unfold scanLoop
+    simp only at h h1 h2 h3 ⊢
+    rw [← h1] at h
+    rcases hp : probe ⟨d, p, k⟩ (start + off) maxrange with ⟨r, f1⟩
+    rw [hp] at h h2 h3
+    simp only at h h2 h3 ⊢
+    cases r with
+    | none =>
+      simp only [Option.bind_none] at h
+      have := ih f1 (by rw [h2]; exact h)
+      rw [this, h2, h3]
+    | some mm =>
+      simp only [Option.bind_some] at h
+      cases hc : classify mm with
+      | none =>
+        rw [hc] at h
+        simp only [hc] at h ⊢
+        have := ih f1 (by rw [h2]; exact h)
+        rw [this, h2, h3]
+      | some a' =>
+        rw [hc] at h
+        simp only [hc] at h ⊢
+        injection h with h
+        injection h with hb ha
+        subst hb
+        rw [probe_pos_indep d 0 p k, hp]
+
+/-- for a non-empty offset list the whole loop is independent of the initial position -/
+theorem scanLoop_pos_indep (classify : Int → Option α) (start maxrange : Nat) (offs : List Nat) (hne : offs ≠ [])
+    (d : Bytes) (p q : Nat) (k : FileKind) :
+    scanLoop classify start maxrange offs ⟨d, p, k⟩ = scanLoop classify start maxrange offs ⟨d, q, k⟩ := by
+  cases offs with
+  | nil => exact absurd rfl hne
+  | cons off rest =>
+    unfold scanLoop
+    rw [probe_pos_indep d p q k]
+
+theorem findMzOffset_pos_indep (d : Bytes) (p q : Nat) (k : FileKind) (s maxrange : Nat) (hm : 0 < maxrange) :
+    findMzOffset ⟨d, p, k⟩ (some s) maxrange = findMzOffset ⟨d, q, k⟩ (some s) maxrange := by
+  unfold findMzOffset startOf
+  simp only
+  rw [scanLoop_pos_indep classifyMz s maxrange (List.range maxrange) (by simp; omega) d p q k]
+
+theorem findArchitecture_pos_indep (d : Bytes) (p q : Nat) (k : FileKind) (s maxrange : Nat) (hm : 0 < maxrange) :
+    findArchitecture ⟨d, p, k⟩ (some s) maxrange = findArchitecture ⟨d, q, k⟩ (some s) maxrange := by
+  unfold findArchitecture startOf
+  simp only
+  rw [scanLoop_pos_indep classifyArch s maxrange (List.range maxrange) (by simp; omega) d p q k]
+
+/-- result and file after `find_mz_offset(fh, start_offset=|J|, maxrange)` on `J ++ P ++ I` -/
+theorem findMzOffset_at {J P I : Bytes} {maxrange : Nat} (h : StageAt J P I maxrange) (pos : Nat) (k : FileKind) :
+    findMzOffset ⟨J ++ P ++ I, pos, k⟩ (some J.length) maxrange
+      = (some (J.length + P.length), ⟨J ++ P ++ I, J.length + P.length + Img.optOff I, k⟩) := by
+  have hlen : (J ++ P).length = J.length + P.length := List.length_append
+  obtain ⟨s1, _, _⟩ := scanLoop_spec classifyMz J.length maxrange (List.range maxrange) ⟨J ++ P ++ I, pos, k⟩
+  have hit := firstHit_range classifyMz (J ++ P ++ I) J.length maxrange maxrange P.length () h.prepend
+    (by rw [← hlen, machineAt_at (J ++ P) I h.image]; simp [image_classifyMz h.image]) h.first
+  have hfile := scanLoop_hit_file classifyMz J.length maxrange (List.range maxrange) ⟨J ++ P ++ I, pos, k⟩ _ () hit
+  simp only at hfile
+  rw [← hlen, probe_image (J ++ P) I h.image 0 k] at hfile
+  unfold findMzOffset startOf
+  simp only
+  rcases hr : scanLoop classifyMz J.length maxrange (List.range maxrange) ⟨J ++ P ++ I, pos, k⟩ with ⟨r, f1⟩
+  rw [hr] at s1 hfile
+  simp only at s1 hfile
+  rw [hit] at s1
+  subst s1
+  subst hfile
+  simp only [hlen]
+
+theorem findArchitecture_at {J P I : Bytes} {maxrange : Nat} (h : StageAt J P I maxrange) (pos : Nat) (k : FileKind) :
+    findArchitecture ⟨J ++ P ++ I, pos, k⟩ (some J.length) maxrange
+      = (some (Img.arch I), ⟨J ++ P ++ I, J.length + P.length + Img.optOff I, k⟩) := by
+  have hlen : (J ++ P).length = J.length + P.length := List.length_append
+  obtain ⟨s1, _, _⟩ := scanLoop_spec classifyArch J.length maxrange (List.range maxrange) ⟨J ++ P ++ I, pos, k⟩
+  have hit := firstHit_range classifyArch (J ++ P ++ I) J.length maxrange maxrange P.length (Img.arch I) h.prepend
+    (by rw [← hlen, machineAt_at (J ++ P) I h.image]; simp [image_classifyArch h.image]) (noEarlier_arch h.first)
+  have hfile := scanLoop_hit_file classifyArch J.length maxrange (List.range maxrange) ⟨J ++ P ++ I, pos, k⟩ _ _ hit
+  simp only at hfile
+  rw [← hlen, probe_image (J ++ P) I h.image 0 k] at hfile
+  unfold findArchitecture startOf
+  simp only
+  rcases hr : scanLoop classifyArch J.length maxrange (List.range maxrange) ⟨J ++ P ++ I, pos, k⟩ with ⟨r, f1⟩
+  rw [hr] at s1 hfile
+  simp only at s1 hfile
+  rw [hit] at s1
+  subst s1
+  subst hfile
+  simp only [hlen]
+
 namespace Img
 
 /-- export timestamp of the image: the `IMAGE_EXPORT_DIRECTORY` located through the first section
@@ -574,9 +749,23 @@ theorem optSize_fields (b : Bool) :
     ∧ (optExportVA b).signed = false ∧ (optSizeOfHeaders b).signed = false := by
   cases b <;> decide
 
-theorem compileStampsAt_stage {P I : Bytes} {maxrange : Nat} (h : Stage P I maxrange)
+namespace Img
+
+/-- offset inside the image at which `find_compile_stamps` stops reading: the end of the section table, or the end of the
+(possibly short) export-directory read -/
+def stampsEnd (I : Bytes) : Nat :=
+  match (sections I).find? (sectionContains (exportRva I)) with
+  | none => headersEnd I
+  | some ds =>
+    let off := (exportRva I - fieldVal ds secVirtualAddress + fieldVal ds secPointerToRawData).toNat
+    off + (slice I off exportDirSize).length
+
+end Img
+
+theorem compileStampsAt_image {I : Bytes} {maxrange : Nat} (P : Bytes) (h : ImageOK I maxrange)
     (hc : Img.headersEnd I ≤ I.length) (pos : Nat) (k : FileKind) :
-    (compileStampsAt ⟨P ++ I, pos, k⟩ P.length).1 = .ok (some (Img.compileStamp I), Img.exportStamp I) := by
+    compileStampsAt ⟨P ++ I, pos, k⟩ P.length
+      = (.ok (some (Img.compileStamp I), Img.exportStamp I), ⟨P ++ I, P.length + Img.stampsEnd I, k⟩) := by
   have hd := h.dos
   have hpos := h.lfanew_pos
   have hf := h.fileHeader
@@ -617,7 +806,7 @@ theorem compileStampsAt_stage {P I : Bytes} {maxrange : Nat} (h : Stage P I maxr
   have hsec : ((List.range (Img.nsec I)).map fun i => slice I (Img.optOff I + optSize (Img.is64 I) + sectionSize * i) sectionSize)
       = Img.sections I := rfl
   rw [hsec]
-  unfold Img.exportStamp
+  unfold Img.exportStamp Img.stampsEnd
   cases hfind : (Img.sections I).find? (sectionContains (Img.exportRva I)) with
   | none => rfl
   | some ds =>
@@ -629,18 +818,12 @@ theorem compileStampsAt_stage {P I : Bytes} {maxrange : Nat} (h : Stage P I maxr
         = P.length + (Img.exportRva I - fieldVal ds secVirtualAddress + fieldVal ds secPointerToRawData).toNat := by omega
     rw [seekSet_nonneg _ _ _ _ (by omega), hoff]
     simp only
+    rw [readStruct_image]
     by_cases hfit : (Img.exportRva I - fieldVal ds secVirtualAddress + fieldVal ds secPointerToRawData).toNat + exportDirSize ≤ I.length
-    · rw [readStruct_stage P I _ exportDirSize k hfit, if_pos hfit]
+    · rw [sliceOpt_ok _ _ _ hfit, if_pos hfit]
       simp only
       rw [fieldVal_slice _ _ _ _ (by decide)]
-    · have hs := readStruct_stage_short P I
-        (Img.exportRva I - fieldVal ds secVirtualAddress + fieldVal ds secPointerToRawData).toNat exportDirSize k
-        (by omega) (by decide)
-      rcases hr : readStruct ⟨P ++ I, P.length + (Img.exportRva I - fieldVal ds secVirtualAddress + fieldVal ds secPointerToRawData).toNat, k⟩ exportDirSize with ⟨r, f9⟩
-      rw [hr] at hs
-      simp only at hs
-      subst hs
-      rw [if_neg hfit]
+    · rw [sliceOpt_none _ _ _ (by omega) (by decide), if_neg hfit]
 
 
 theorem read_stage (P I : Bytes) (x n : Nat) (k : FileKind) :
@@ -678,8 +861,8 @@ end Img
 
 def prependOf (P : Bytes) : Option Bytes := if P.length > 0 then some P else none
 
-theorem magicMzAt_stage (P I : Bytes) (pos : Nat) (k : FileKind) :
-    (magicMzAt ⟨P ++ I, pos, k⟩ P.length).1 = Img.magicMz I := by
+theorem magicMzAt_image (P I : Bytes) (pos : Nat) (k : FileKind) :
+    magicMzAt ⟨P ++ I, pos, k⟩ P.length = (Img.magicMz I, ⟨P ++ I, P.length + (slice I 0 256).length, k⟩) := by
   unfold magicMzAt Img.magicMz
   simp only [seekNat_mk]
   have := read_stage P I 0 256 k
@@ -694,10 +877,11 @@ theorem magicMzAt_stage (P I : Bytes) (pos : Nat) (k : FileKind) :
     simp only
     cases findSub dosHeaderX64 (slice I 0 256) 0 <;> rfl
 
-theorem magicPeAt_stage {P I : Bytes} {maxrange : Nat} (h : Stage P I maxrange) (pos : Nat) (k : FileKind) :
-    (magicPeAt ⟨P ++ I, pos, k⟩ P.length).1 = .ok (some (Img.magicPe I)) := by
+theorem magicPeAt_image {I : Bytes} {maxrange : Nat} (P : Bytes) (h : ImageOK I maxrange) (pos : Nat) (k : FileKind) :
+    magicPeAt ⟨P ++ I, pos, k⟩ P.length = (.ok (some (Img.magicPe I)), ⟨P ++ I, P.length + (Img.nt I + 4), k⟩) := by
   have hd := h.dos
   have hpos := h.lfanew_pos
+  have hf := h.fileHeader
   have hnt : ((Img.lfanew I) + (P.length : Int)).toNat = P.length + Img.nt I := by unfold Img.nt; omega
   unfold magicPeAt
   simp only [seekNat_mk]
@@ -713,6 +897,9 @@ theorem magicPeAt_stage {P I : Bytes} {maxrange : Nat} (h : Stage P I maxrange) 
   have := read_stage P I (Img.nt I) 4 k
   rw [h4] at this
   rw [this]
+  have hl : (slice I (Img.nt I) 4).length = 4 := by
+    rw [slice_length]; unfold Img.optOff at hf; omega
+  simp only [hl, Nat.add_assoc]
   rfl
 
 theorem foldl_rawsize_nonneg (secs : List Bytes) (init : Int) (h : 0 ≤ init) :
@@ -725,9 +912,11 @@ theorem foldl_rawsize_nonneg (secs : List Bytes) (init : Int) (h : 0 ≤ init) :
     have := leNat_nonneg_field s secSizeOfRawData (by decide)
     omega
 
-theorem prependAppendAt_stage {P I : Bytes} {maxrange : Nat} (h : Stage P I maxrange)
+theorem prependAppendAt_image {I : Bytes} {maxrange : Nat} (P : Bytes) (h : ImageOK I maxrange)
     (hc : Img.headersEnd I ≤ I.length) (pos : Nat) (k : FileKind) :
-    (prependAppendAt ⟨P ++ I, pos, k⟩ P.length).1 = .ok (prependOf P, Img.append I) := by
+    prependAppendAt ⟨P ++ I, pos, k⟩ P.length
+      = (.ok (prependOf P, Img.append I),
+          ⟨P ++ I, P.length + (Img.totalSize I).toNat + (slice I (Img.totalSize I).toNat 1024).length, k⟩) := by
   have hd := h.dos
   have hpos := h.lfanew_pos
   have hf := h.fileHeader
@@ -799,7 +988,7 @@ theorem prependAppendAt_stage {P I : Bytes} {maxrange : Nat} (h : Stage P I maxr
 theorem optSize_pos (b : Bool) : 0 < optSize b := by cases b <;> decide
 
 /-- truncated optional header: "return what we have" — the compile stamp is still reported -/
-theorem compileStampsAt_stage_truncated {P I : Bytes} {maxrange : Nat} (h : Stage P I maxrange)
+theorem compileStampsAt_image_truncated {I : Bytes} {maxrange : Nat} (P : Bytes) (h : ImageOK I maxrange)
     (hc : I.length < Img.optOff I + optSize (Img.is64 I)) (pos : Nat) (k : FileKind) :
     (compileStampsAt ⟨P ++ I, pos, k⟩ P.length).1 = .ok (some (Img.compileStamp I), none) := by
   have hd := h.dos
@@ -1206,6 +1395,9 @@ def sampleImage64 : Bytes :=
   (zeros 60 ++ le32 328 ++ zeros 48 ++ le32 0x2000 ++ zeros 124)
 
 
+/-- `sampleImage64 ++ samplePrepend ++ sampleImage` as an OS file positioned at 7 (searched from start offset 328) -/
+def sampleFileAt : PyFile := ⟨sampleImage64 ++ samplePrepend ++ sampleImage, 7, .osFile⟩
+
 /-! ## histories: one BeaconConfig object, one file object -/
 
 /-- attributes of the object after a history -/
@@ -1444,6 +1636,27 @@ theorem same_peCall (f : PyFile) (start : Option Nat) (maxrange : Nat) (op : PeO
   · exact same_findMagicPe f start maxrange
   · exact same_findStagePrependAppend f start maxrange
 
+/-- what each helper must report for `J ++ P ++ I` searched from `start_offset = |J|`: the offset is ABSOLUTE
+(`start_offset + offset`), and `prepend` is everything from the beginning of the file (`fh.seek(0); fh.read(mz_offset)`),
+i.e. it includes the bytes in front of the start offset -/
+def stageAnswerAt (J P I : Bytes) : PeOp → PeOut
+  | .mz => .mz (some (J.length + P.length))
+  | .arch => .arch (some (Img.arch I))
+  | .stamps => .stamps (.ok (some (Img.compileStamp I), Img.exportStamp I))
+  | .mmz => .mmz (Img.magicMz I)
+  | .mpe => .mpe (.ok (some (Img.magicPe I)))
+  | .ppa => .ppa (.ok (prependOf (J ++ P), Img.append I))
+
+/-- where each helper leaves the file position on a complete stage, relative to the start of the image
+(none of them restores the position it found) -/
+def Img.endPos (I : Bytes) : PeOp → Nat
+  | .mz => Img.optOff I                         -- end of the IMAGE_FILE_HEADER read by the accepting iteration
+  | .arch => Img.optOff I
+  | .stamps => Img.stampsEnd I                  -- end of the section table / of the export-directory read
+  | .mmz => (slice I 0 256).length              -- after `fh.read(256)`
+  | .mpe => Img.nt I + 4                        -- after the four signature bytes
+  | .ppa => (Img.totalSize I).toNat + (slice I (Img.totalSize I).toNat 1024).length   -- after `fh.read(1024)`
+
 /-- what each helper must report for the stage `P ++ I` -/
 def stageAnswer (P I : Bytes) : PeOp → PeOut
   | .mz => .mz (some P.length)
@@ -1453,5 +1666,7 @@ def stageAnswer (P I : Bytes) : PeOp → PeOut
   | .mpe => .mpe (.ok (some (Img.magicPe I)))
   | .ppa => .ppa (.ok (prependOf P, Img.append I))
 
+theorem stageAnswerAt_nil (P I : Bytes) (op : PeOp) : stageAnswerAt [] P I op = stageAnswer P I op := by
+  cases op <;> simp [stageAnswerAt, stageAnswer]
 
 end C18
